@@ -127,6 +127,13 @@ def gen_cases(rng, tier, scale):
                 exp = bodies[j]
                 break
         cases.append(rcase(f'zc{i}', s, {f'c{j}': l[2] for j, l in enumerate(links)}, entry=4, kind='izchain', exp=exp, tags=['includeZero-chain']))
+    XS = {'xs': [{'k': 1}, {'a': {'z': 1}, 'k': 2, 'q': {'z': 2}}, {'k': 3, 'p': True}], 'k': 'ROOT'}
+    for i, (t, exp) in enumerate([('{{#each xs}}{{#with a}}T{{else}}F{{/with}}{{k}}{{/each}}', 'F1T2F3'),
+                                  ('{{#each xs}}{{#if p}}P{{else with q}}Q{{else}}N{{/if}}{{k}};{{/each}}', 'N1;Q2;P3;'),
+                                  ('{{#each xs}}{{#with a}}T{{^}}F{{/with}}{{#if p}}y{{else}}n{{/if}}{{@index}}{{/each}}', 'Fn0Tn1Fy2'),
+                                  ('{{#with xs.[0]}}{{#with nope}}T{{else}}F{{/with}}{{k}}{{/with}}|{{k}}', 'F1|ROOT'),
+                                  ('{{#each xs}}{{#with a}}T{{else if p}}P{{else}}F{{/with}}{{k}}{{/each}}', 'F1T2P3')]):
+        cases.append(rcase(f'wsc{i}', t, XS, entry=4, kind='izchain', exp=exp, tags=['falsy-with-in-scope']))
     LAY = {'layout': '[{{> title}}]{{> @partial-block}}', 'title': 'default'}
     for i, (t, d, exp) in enumerate([
             ('{{#> layout}}{{#if a}}yes{{else}}{{#*inline "title"}}custom{{/inline}}no{{/if}}{{/layout}}', {'a': True}, '[default]yes'),
